@@ -17,6 +17,13 @@ def main():
         for e in rep.errors:
             print("   ERROR:", e)
         agg = rep.summary()
+        import os as _os
+        if _os.environ.get("PYVC_JSON"):
+            obl = {}
+            for name, recs in agg.items():
+                sts = {r["status"] for r in recs}
+                obl[name] = "refuted" if "refuted" in sts else ("unknown" if "unknown" in sts else "proved")
+            print("JSON " + json.dumps({"function": q, "obligations": obl, "unsupported": rep.unsupported, "errors": rep.errors}))
         for name, recs in agg.items():
             st = sorted(set(r["status"] for r in recs))
             print(f"   {name}: {len(recs)} instance(s) {st} {sorted(set(r['backend'] for r in recs))}")
